@@ -117,6 +117,18 @@ CHECKS["C18"] = dict(
     note="Trusted: PrefixTree1/2 as ordered tuple sets (get / iter by contract; C08), BTreeMap / VecDeque semantics of the interpreter. Precondition "
          "(from the generated caller): every dom / cod value is an object. Bounds: up to 3 objects x 3 morphism ids (quick), 4 x 4 (thorough).")
 
+CHECKS["C02"] = dict(
+    technique="bounded inductive verification by SAT with a symbolic ghost model: an arbitrary model N of the reference rules and an arbitrary map h are carried through the symbolic execution of every public mutator, the prologue and one close_until iteration; the invariant `h is a homomorphism into N` is shown inductive",
+    text="For every corpus program: N ranges over all structures within the universe bound that satisfy every stage of every reference rule (and "
+         "single-valuedness), h over all maps from element ids to N. The solver shows that `h is a homomorphism from the current state into N` (equal "
+         "elements have equal images, every row of every table is mapped into N, pending definitions are defined in N) is preserved by every public "
+         "mutator whenever N satisfies the asserted fact, by close_until's prologue and by one arbitrary loop iteration; elements allocated on the way get "
+         "their image by a finite disjunction and are values of function rows; define_ returns the existing value of a defined term and allocates nothing "
+         "then. By induction every tuple and every equality of a closed model holds in every model (within the bound) of the rules and of the assertions, "
+         "i.e. is forced. The structural invariants the induction rests on are re-checked as hypotheses. A failed lemma is reported only with a "
+         "solver-found history plus a concrete certificate (a model N of the rules and of the assertions lacking a derived fact) re-checked natively.",
+    design_ref="§4 C02, §9")
+
 NOT_APPLICABLE = {
     "C02": "check not built yet (ghost-model soundness lemma planned, DESIGN.md §9)",
     "C03": "check not built yet (follows from C01 + C02 lemmas; idempotence lemma planned)",
